@@ -1011,6 +1011,13 @@ class ComputeGraph(MultiDiGraph):
         import sympy as sp
         from sympy import Derivative, Function, Subs
 
+        # chain rule through identity: Subs(Derivative(identity(_xi), _xi), _xi, arg) = 1.  Resolved as a whole and first:
+        # replacing only the inner Derivative leaves Subs(1, _xi, arg) objects, and a product of two of them cannot be
+        # sorted by sympy (TypeError in Mul.flatten)
+        expr = expr.replace(
+            lambda e: isinstance(e, Subs) and isinstance(e.expr, Derivative) and e.expr.expr.func.__name__ == 'identity',
+            lambda e: sp.Integer(1)
+        )
         # identity(x) = x  →  d/dx = 1
         expr = expr.replace(
             lambda e: isinstance(e, Derivative) and e.expr.func.__name__ == 'identity',
